@@ -39,11 +39,10 @@ import mutenum as M
 
 CTX = {}          # filled before the worker pool forks
 QUICK_BUDGET = 40
-THOROUGH_BUDGET = 11 * 60
+THOROUGH_BUDGET = 12.5 * 60
 ARG_CORE_Q, ARG_CORE_T = 30, 24
 # extra link modes of the object seed (thorough)
 OBJECT_MODES = (("-pie", "--no-gc-sections"), ("-r",))
-HANG_LONG = 200   # seconds; limit for hang candidates that declare a huge value (thorough only)
 BAD = ("panic", "signal", "hang", "silent-error", "badexit")
 ERR_LINE = re.compile(r"^wild: (\x1b\[[0-9;]*m)*error", re.M)
 
@@ -315,8 +314,7 @@ def replay_main(chk):
     rep = rec["replay"]
     with vlib.scratch("c22r") as base:
         res = run_replay_case(rep, base, with_server=True,
-                              timeout=(HANG_LONG if rep.get("huge_value") else 60)
-                              if rec["key"].startswith("hang") else 20)
+                              timeout=60 if rec["key"].startswith("hang") else 20)
     print(json.dumps(res, indent=1, default=str))
     c = confirmed(res)
     if c:
@@ -506,12 +504,12 @@ def main():
         tb = time.time() - tb
         if rcb != 0:
             chk.machinery("baseline process run failed: %r" % (rcb,))
-        # A hang must again be a hang as a real process. Short limit: at least 100x the time a
+        # A hang must again be a hang as a real process, with a limit of at least 100x the time a
         # trivial link takes right now. An input that declares a huge size / count / address
-        # (a mutated value >= 2^24) can legitimately need time proportional to it: such a hang
-        # candidate gets the long limit, in the thorough tier only.
+        # (a mutated value >= 2^24) can legitimately need time proportional to it (observed: a
+        # 2 GiB .tbss with -r takes about a minute and then finishes): such a candidate is not
+        # judged at all; it is listed in the evidence.
         hang_short = min(60.0, max(float(M.TIMEOUT), 100 * tb))
-        hang_long = HANG_LONG
         confirmed_sites, unconfirmed, deferred, folded = {}, {}, {}, {}
         nproc = [0]
         import itertools
@@ -520,7 +518,7 @@ def main():
         def limit_for(key, case):
             if not key.startswith("hang"):
                 return 20
-            return hang_long if case["huge"] else hang_short
+            return hang_short
 
         def confirm_job(job):
             key, item, msg = job
@@ -558,7 +556,7 @@ def main():
             jobs0 = {}
             for key in keys:
                 cands = [c for c in book.findings[key]
-                         if T or not (key.startswith("hang") and resolve(c[1])["huge"])]
+                         if not (key.startswith("hang") and resolve(c[1])["huge"])]
                 if not cands:
                     deferred[key] = resolve(book.findings[key][0][1])["desc"][:200]
                     continue
@@ -608,8 +606,8 @@ def main():
         confirm_round([k for k in allkeys if ":pair:" in k])
         kill_servers()
         for key, desc in deferred.items():
-            print("NOTE: hang candidate %s declares a huge value; it is confirmed (limit %d s) in "
-                  "the thorough tier only: %s" % (key, hang_long, desc), file=sys.stderr)
+            print("NOTE: %s: no result in time, but the input declares a huge value; not judged: %s"
+                  % (key, desc), file=sys.stderr)
         for key, desc in unconfirmed.items():
             print("NOTE: server verdict %s not reproduced by a real process (not reported): %s"
                   % (key, desc), file=sys.stderr)
@@ -646,7 +644,7 @@ def main():
         "server_verdict_classes": dict(sorted(book.finding_counts.items())),
         "confirmed_violation_keys": sorted(confirmed_sites),
         "unconfirmed_server_verdicts": unconfirmed,
-        "hang_candidates_deferred_to_thorough": deferred,
+        "slow_or_hang_not_judged_huge_declared_value": deferred,
         "pair_classes_folded_into_single_field_keys": folded,
         "confirmation_subprocesses": nproc[0],
         "server_clean_exits": book.exit0,
@@ -664,8 +662,8 @@ def main():
         "hang = no result within %d s in the server and then again as a real process within "
         "max(%d s, 100 x the wall time of a trivial link measured at that moment; at most 60 s); "
         "when the mutated value is >= 2^24 (a declared size/count/address that can legitimately "
-        "cost proportional time) the limit is %d s and the confirmation is done in the thorough "
-        "tier only" % (M.TIMEOUT, M.TIMEOUT, HANG_LONG),
+        "cost proportional time) a time-out is not judged (listed under "
+        "slow_or_hang_not_judged_huge_declared_value)" % (M.TIMEOUT, M.TIMEOUT),
         "hooks-on build with release semantics (no debug assertions, no overflow checks)",
         "text members containing a shorter member that already panicked/crashed/hung are counted "
         "as dominated and not run",
